@@ -11,6 +11,11 @@ is variable.  The functions mirror, for the code **with the two `fix:` repairs o
 * `build`            — `irdl_build_arg_list` + the option handling of `irdl_op_init`
 * `AttrC/RangeC.verify`, `verifyOp` — constraint checking with one shared `ConstraintContext`,
   in the order of `OpDef.verify`.
+* `fillDefaults`, `dictAccessor` — `IRDLOperation.__post_init__` (default values of non-optional
+  properties/attributes are written at construction time only) and the four dictionary accessors.
+* `RawSizes`, `readSize`, `view`, `verifyOpRaw`, `storeSizes`, `buildOp` — where the segment-size
+  arrays live: every `AttrSized…Segments` option carries its own `as_property` flag, verification
+  and accessors read `option.container(op)`, the constructor writes one entry per option.
 
 Python integers: `//` and `%` are only used with a positive divisor, where Lean's `Int` `/`, `%`
 (Euclidean) agree with Python's floor versions.  Python negative indexing and slice clamping are
@@ -277,6 +282,8 @@ structure SegDef where
 structure ConstructDef where
   opt : Opt := .none
   segs : List SegDef := []
+  /-- `as_property` of the construct's `AttrSized…Segments` option (only read when `opt = attrSized`) -/
+  asProp : Bool := false
   deriving Repr, Inhabited
 
 def ConstructDef.kinds (cd : ConstructDef) : List Seg := cd.segs.map (·.kind)
@@ -285,6 +292,8 @@ structure AttrDef where
   name : Nat
   optional : Bool
   constr : AttrC
+  /-- `default_value` of `prop_def` / `attr_def` / `opt_prop_def` / `opt_attr_def` -/
+  default : Option Nat := Option.none
   deriving Repr, Inhabited
 
 structure Def where
@@ -385,6 +394,130 @@ def verifyOp (d : Def) (o : Inst) : Except VErr Unit := do
   match verifyDict d.attrs o.attrs ctx with
   | some _ => pure ()
   | Option.none => throw .verify
+
+/-! ### default values and the dictionary accessors -/
+
+/-- one iteration of a `__post_init__` loop: a non-optional definition that carries a default and
+is absent from the dictionary gets its default -/
+def fillStep (m : AL Nat Nat) (d : AttrDef) : AL Nat Nat :=
+  match AL.get m d.name, d.optional, d.default with
+  | Option.none, false, some v => AL.set m d.name v
+  | _, _, _ => m
+
+/-- one of the two loops of `IRDLOperation.__post_init__`.  This runs when an operation object is
+constructed (`Operation.__init__`, hence also `Operation.create` and the generated constructor) and
+never again: `OpDef.verify` (`verifyDict`) does not look at defaults. -/
+def fillDefaults (defs : List AttrDef) (m : AL Nat Nat) : AL Nat Nat :=
+  defs.foldl fillStep m
+
+/-- `PropertyAccessor` / `AttributeAccessor.__get__` (`d[name]`: `KeyError` when absent) and
+`OptionalPropertyAccessor` / `OptionalAttributeAccessor.__get__` (`d.get(name, default)`) -/
+def dictAccessor (d : AttrDef) (m : AL Nat Nat) : Except AccErr (Option Nat) :=
+  match AL.get m d.name with
+  | some a => .ok (some a)
+  | Option.none => if d.optional then .ok d.default else .error .key
+
+/-- `__post_init__` on a whole instance -/
+def construct (d : Def) (o : Inst) : Inst :=
+  { o with props := fillDefaults d.props o.props, attrs := fillDefaults d.attrs o.attrs }
+
+/-! ### where the segment-size arrays are stored -/
+
+/-- the four constructs = the four entry names `operandSegmentSizes`, `resultSegmentSizes`,
+`regionSegmentSizes`, `successorSegmentSizes` -/
+inductive Construct | operand | result | region | successor
+  deriving DecidableEq, Repr, Inhabited
+
+def Def.get (d : Def) : Construct → ConstructDef
+  | .operand => d.operands
+  | .result => d.results
+  | .region => d.regions
+  | .successor => d.successors
+
+/-- the segment-size entries of `op.properties` and of `op.attributes` (the numbered properties and
+attributes of `Inst.props` / `Inst.attrs` are the remaining keys of the same two dictionaries) -/
+structure RawSizes where
+  props : AL Construct SizeAttr := []
+  attrs : AL Construct SizeAttr := []
+  deriving Repr, Inhabited
+
+/-- `option.container(op).get(option.attribute_name)` for the construct's `AttrSized…Segments`
+option; a construct without that option never looks -/
+def readSize (cd : ConstructDef) (c : Construct) (raw : RawSizes) : SizeAttr :=
+  if cd.opt = .attrSized then
+    match AL.get (if cd.asProp then raw.props else raw.attrs) c with
+    | some a => a
+    | Option.none => .missing
+  else .missing
+
+/-- the instance as verification and the accessors see it: each size attribute is looked up in
+the container its own option names -/
+def view (d : Def) (raw : RawSizes) (o : Inst) : Inst :=
+  { o with
+    operandAttr := readSize d.operands .operand raw
+    resultAttr := readSize d.results .result raw
+    regionAttr := readSize d.regions .region raw
+    succAttr := readSize d.successors .successor raw }
+
+/-- `OpDef.from_pyrdl` adds a `PropertyDef` named after the size entry exactly for the options with
+`as_property=True` -/
+def declaresSizeProp (d : Def) (c : Construct) : Bool :=
+  (d.get c).opt == .attrSized && (d.get c).asProp
+
+/-- the `for prop_name in op.properties.keys()` loop of `OpDef.verify`, on the size entries -/
+def undefinedSizeProp (d : Def) (raw : RawSizes) : Bool :=
+  raw.props.any fun kv => !declaresSizeProp d kv.1
+
+/-- `OpDef.verify` on an operation whose size entries are stored in `raw`.  (A `VerifyException`
+from the undefined-property loop and one from a later loop are the same outcome class; Python
+errors can only come from the accessor calls of the first three steps.) -/
+def verifyOpRaw (d : Def) (raw : RawSizes) (o : Inst) : Except VErr Unit :=
+  match verifyOp d (view d raw o) with
+  | .error e => .error e
+  | .ok _ => if undefinedSizeProp d raw then .error .verify else .ok ()
+
+/-- one iteration of the option loop of `irdl_op_init`: an `AttrSized…Segments` option writes its
+size array into the dictionary named by ITS OWN `as_property` flag -/
+def storeStep (d : Def) (sizes : Construct → SizeAttr) (raw : RawSizes) (c : Construct) : RawSizes :=
+  if (d.get c).opt = .attrSized then
+    if (d.get c).asProp then { raw with props := AL.set raw.props c (sizes c) }
+    else { raw with attrs := AL.set raw.attrs c (sizes c) }
+  else raw
+
+/-- the option loop of `irdl_op_init`: `order` lists the constructs in the order in which their
+options appear in `irdl_options` -/
+def storeSizes (d : Def) (sizes : Construct → SizeAttr) (order : List Construct) (raw : RawSizes) :
+    RawSizes :=
+  order.foldl (storeStep d sizes) raw
+
+/-- arguments of the generated constructor -/
+structure BuildArgs where
+  operands : List (BArg Nat) := []
+  results : List (BArg Nat) := []
+  regions : List (BArg RegionInst) := []
+  successors : List (BArg Unit) := []
+  deriving Repr, Inhabited
+
+/-- `irdl_op_init` + `Operation.__init__` + `__post_init__` on a whole definition -/
+def buildOp (d : Def) (order : List Construct) (a : BuildArgs) (props attrs : AL Nat Nat) :
+    Option (Inst × RawSizes) :=
+  match build true d.operands.kinds d.operands.opt a.operands,
+        build false d.results.kinds d.results.opt a.results,
+        build true d.regions.kinds d.regions.opt a.regions,
+        build false d.successors.kinds d.successors.opt a.successors with
+  | some (xo, ao), some (xr, ar), some (xg, ag), some (xs, as) =>
+    let sizes : Construct → SizeAttr := fun c =>
+      match c with
+      | .operand => ao
+      | .result => ar
+      | .region => ag
+      | .successor => as
+    let raw := storeSizes d sizes order {}
+    let o : Inst :=
+      { operands := xo, results := xr, regions := xg, successors := xs.length
+        props := fillDefaults d.props props, attrs := fillDefaults d.attrs attrs }
+    some (view d raw o, raw)
+  | _, _, _, _ => Option.none
 
 /-! ### line protocol -/
 
@@ -494,7 +627,26 @@ def parseSeg1 : String → Option Seg
 structure St where
   d : Def := {}
   o : Inst := {}
+  /-- segment-size entries of the two dictionaries of the current instance -/
+  raw : RawSizes := {}
+  /-- constructor argument shapes per construct (`bshape` lines) -/
+  shapes : AL Construct (List String) := []
   deriving Inhabited
+
+def parseConstruct : String → Option Construct
+  | "operand" => some .operand
+  | "result" => some .result
+  | "region" => some .region
+  | "successor" => some .successor
+  | _ => Option.none
+
+def showConstruct : Construct → String
+  | .operand => "operand"
+  | .result => "result"
+  | .region => "region"
+  | .successor => "successor"
+
+def allConstructs : List Construct := [.operand, .result, .region, .successor]
 
 def St.getC (s : St) : String → Option ConstructDef
   | "operand" => some s.d.operands
@@ -511,13 +663,58 @@ def St.setC (s : St) (c : String) (cd : ConstructDef) : St :=
   | "successor" => { s with d := { s.d with successors := cd } }
   | _ => s
 
+/-- write a size entry into `op.properties` (`toProp`) or `op.attributes` -/
+def St.setRaw (s : St) (c : Construct) (toProp : Bool) (a : SizeAttr) : St :=
+  if toProp then { s with raw := { s.raw with props := AL.set s.raw.props c a } }
+  else { s with raw := { s.raw with attrs := AL.set s.raw.attrs c a } }
+
+def St.delRaw (s : St) (c : Construct) (fromProp : Bool) : St :=
+  if fromProp then { s with raw := { s.raw with props := AL.del s.raw.props c } }
+  else { s with raw := { s.raw with attrs := AL.del s.raw.attrs c } }
+
+/-- `sattr`: the entry goes where the definition says it lives -/
 def St.setAttr (s : St) (c : String) (a : SizeAttr) : Option St :=
-  match c with
-  | "operand" => some { s with o := { s.o with operandAttr := a } }
-  | "result" => some { s with o := { s.o with resultAttr := a } }
-  | "region" => some { s with o := { s.o with regionAttr := a } }
-  | "successor" => some { s with o := { s.o with succAttr := a } }
-  | _ => Option.none
+  match parseConstruct c with
+  | some c => some (s.setRaw c (declaresSizeProp s.d c) a)
+  | Option.none => Option.none
+
+def showDict (m : AL Nat Nat) : String :=
+  let bound := m.foldl (fun b kv => max b (kv.1 + 1)) 0
+  let ents := (List.range bound).filterMap fun k => (AL.get m k).map fun v => s!"{k}={v}"
+  if ents.isEmpty then "-" else ",".intercalate ents
+
+def showDictAcc (defs : List AttrDef) (m : AL Nat Nat) : String :=
+  if defs.isEmpty then "-" else
+  "|".intercalate (defs.map fun d =>
+    match dictAccessor d m with
+    | .ok (some a) => toString a
+    | .ok Option.none => "none"
+    | .error e => showErr e)
+
+def showRaw (raw : RawSizes) : String :=
+  let ps := allConstructs.filterMap fun c => (AL.get raw.props c).map fun a => s!"p.{showConstruct c}={showSizeAttr a}"
+  let as := allConstructs.filterMap fun c => (AL.get raw.attrs c).map fun a => s!"a.{showConstruct c}={showSizeAttr a}"
+  if (ps ++ as).isEmpty then "-" else " ".intercalate (ps ++ as)
+
+/-- constructor arguments from shapes over positions and the flat value list -/
+def BArg.fromPos {α : Type} (vals : List α) : BArg Nat → Option (BArg α)
+  | .none => some .none
+  | .one i => (vals[i]?).map .one
+  | .seq is => (is.mapM fun i => vals[i]?).map .seq
+
+def BArg.size {α : Type} : BArg α → Nat
+  | .none => 0
+  | .one _ => 1
+  | .seq xs => xs.length
+
+/-- the arguments of one construct: its `bshape` tokens applied to the flat list `vals`; the shapes
+must use up exactly the list -/
+def St.bargs {α : Type} (s : St) (c : Construct) (vals : List α) : Option (List (BArg α)) :=
+  match parseBArgs ((AL.get s.shapes c).getD []) with
+  | Option.none => Option.none
+  | some ps =>
+    if (ps.map BArg.size).sum != vals.length then Option.none
+    else ps.mapM (BArg.fromPos vals)
 
 def showVerify : Except VErr Unit → String
   | .ok _ => "ok"
@@ -525,7 +722,8 @@ def showVerify : Except VErr Unit → String
   | .error (.py e) => "raise " ++ showErr e
 
 /-- accessor results of one construct of the current instance, values shown as positions -/
-def St.access (s : St) (c : String) : Option String :=
+def St.access (s0 : St) (c : String) : Option String :=
+  let s : St := { s0 with o := view s0.d s0.raw s0.o }
   match c with
   | "operand" => some (showAccessors s.d.operands.kinds
       (accessors s.d.operands.kinds s.d.operands.opt s.o.operandAttr (List.range s.o.operands.length)))
@@ -578,6 +776,10 @@ def lineStep (s : St) (line : String) : St × String :=
      | some cd, some k, some rc =>
        (s.setC c { cd with segs := cd.segs ++ [{ kind := k, constr := rc, singleBlock := true }] }, "ok")
      | _, _, _ => bad)
+  | ["store", c, w] =>
+    (match s.getC c with
+     | some cd => if w = "prop" ∨ w = "attr" then (s.setC c { cd with asProp := w == "prop" }, "ok") else bad
+     | Option.none => bad)
   | ["pdef", name, req, c] =>
     (match name.toNat?, parseAttrC (c.splitOn ":") with
      | some name, some c =>
@@ -588,6 +790,16 @@ def lineStep (s : St) (line : String) : St × String :=
      | some name, some c =>
        ({ s with d := { s.d with attrs := s.d.attrs ++ [{ name := name, optional := req == "opt", constr := c }] } }, "ok")
      | _, _ => bad)
+  | ["pdef", name, req, c, dflt] =>
+    (match name.toNat?, parseAttrC (c.splitOn ":"), dflt.toNat? with
+     | some name, some c, some v =>
+       ({ s with d := { s.d with props := s.d.props ++ [{ name := name, optional := req == "opt", constr := c, default := some v }] } }, "ok")
+     | _, _, _ => bad)
+  | ["adef", name, req, c, dflt] =>
+    (match name.toNat?, parseAttrC (c.splitOn ":"), dflt.toNat? with
+     | some name, some c, some v =>
+       ({ s with d := { s.d with attrs := s.d.attrs ++ [{ name := name, optional := req == "opt", constr := c, default := some v }] } }, "ok")
+     | _, _, _ => bad)
   -- instance -----------------------------------------------------------------------------------
   | ["vals", "operand", tys] =>
     (match parseNats tys with
@@ -618,8 +830,45 @@ def lineStep (s : St) (line : String) : St × String :=
     (match name.toNat?, t.toNat? with
      | some name, some t => ({ s with o := { s.o with attrs := s.o.attrs ++ [(name, t)] } }, "ok")
      | _, _ => bad)
+  | ["rsattr", c, w, a] =>
+    (match parseConstruct c, parseSizeAttr a with
+     | some c, some a => if w = "prop" ∨ w = "attr" then (s.setRaw c (w == "prop") a, "ok") else bad
+     | _, _ => bad)
+  -- history: construction, deletions -------------------------------------------------------------
+  | ["init"] => ({ s with o := construct s.d s.o }, "ok")
+  | ["del", "prop", name] =>
+    (match name.toNat? with
+     | some name => ({ s with o := { s.o with props := AL.del s.o.props name } }, "ok")
+     | Option.none => bad)
+  | ["del", "attr", name] =>
+    (match name.toNat? with
+     | some name => ({ s with o := { s.o with attrs := AL.del s.o.attrs name } }, "ok")
+     | Option.none => bad)
+  | ["rdel", c, w] =>
+    (match parseConstruct c with
+     | some c => if w = "prop" ∨ w = "attr" then (s.delRaw c (w == "prop"), "ok") else bad
+     | Option.none => bad)
+  | "bshape" :: c :: toks =>
+    (match parseConstruct c with
+     | some c => ({ s with shapes := AL.set s.shapes c toks }, "ok")
+     | Option.none => bad)
+  | "buildop" :: order =>
+    (match order.mapM parseConstruct,
+           s.bargs .operand s.o.operands, s.bargs .result s.o.results,
+           s.bargs .region s.o.regions, s.bargs .successor (List.replicate s.o.successors ()) with
+     | some order, some ao, some ar, some ag, some as =>
+       (match buildOp s.d order { operands := ao, results := ar, regions := ag, successors := as }
+                s.o.props s.o.attrs with
+        | some (o, raw) => ({ s with o := o, raw := raw }, "ok")
+        | Option.none => (s, "err"))
+     | _, _, _, _, _ => bad)
   -- observations -------------------------------------------------------------------------------
-  | ["verify"] => (s, showVerify (verifyOp s.d s.o))
+  | ["verify"] => (s, showVerify (verifyOpRaw s.d s.raw s.o))
+  | ["dict", "props"] => (s, showDict s.o.props)
+  | ["dict", "attrs"] => (s, showDict s.o.attrs)
+  | ["dacc", "props"] => (s, showDictAcc s.d.props s.o.props)
+  | ["dacc", "attrs"] => (s, showDictAcc s.d.attrs s.o.attrs)
+  | ["rsizes"] => (s, showRaw s.raw)
   | ["acc", c] => (match s.access c with | some r => (s, r) | Option.none => bad)
   | _ => bad
 
